@@ -2761,15 +2761,30 @@ class Cond(Generic[X, R], GFI[X, R]):
         **kwargs,
     ) -> tuple[Trace[X, R], Weight, X]:
         (check, *rest_args) = args
-        new_tr, w, discard = self.callee.update(tr.trs[0], x, *rest_args, **kwargs)
-        new_tr_, w_, discard_ = self.callee_.update(tr.trs[1], x, *rest_args, **kwargs)
-        # Merge discarded values
-        merged_discard, _ = self.callee.merge(discard, discard_)
-        return (
-            CondTr(self, check, [new_tr, new_tr_]),
-            jnp.where(check, w, w_),
-            merged_discard,
-        )
+
+        def overlay(old, new):
+            # `new` where given, the old (visible) choices elsewhere.
+            if new is None:
+                return old
+            if isinstance(old, dict) and isinstance(new, dict):
+                merged = dict(old)
+                for k, v in new.items():
+                    merged[k] = overlay(old[k], v) if k in old else v
+                return merged
+            return new
+
+        # Unconstrained addresses keep the values that were visible in the old
+        # trace, also in the branch that was not taken before.
+        x = overlay(tr.get_choices(), x)
+        new_tr, _, discard = self.callee.update(tr.trs[0], x, *rest_args, **kwargs)
+        new_tr_, _, discard_ = self.callee_.update(tr.trs[1], x, *rest_args, **kwargs)
+        new_cond_tr = CondTr(self, check, [new_tr, new_tr_])
+        # Density ratio between the visible (taken-branch) executions, which is
+        # also correct when the update switches the branch.
+        weight = tr.get_score() - new_cond_tr.get_score()
+        # The discard holds the values that were visible in the old trace.
+        merged_discard, _ = self.callee.merge(discard, discard_, tr.check)
+        return new_cond_tr, weight, merged_discard
 
     def regenerate(
         self,
